@@ -148,6 +148,16 @@ impl Engine {
     }
 }
 
+/// How late a "late" device is, for families that want a particular value (no effect on the
+/// other policies).
+pub fn set_lateness(k: u32) {
+    with_engine(|e| {
+        if matches!(e.policy, Policy::Late(_)) {
+            e.policy = Policy::Late(k);
+        }
+    });
+}
+
 pub fn install(pers: Box<dyn Personality>, policy: Policy, seed: u64, indirect_ok: bool) {
     // how late a "late" device is varies: from almost immediately to after the driver has gone
     // round its loop many times (a driver that queues as much as it can before the device moves)
